@@ -1,7 +1,7 @@
 (* C20 — the lemmas the property theorems are stated from, and for each theorem an Example showing
    that its hypotheses are met by a concrete, non-trivial input (and what happens without them). *)
 From Coq Require Import String Ascii NArith ZArith Bool Arith List Lia.
-From NGF Require Export C20.Model C20.Spec C20.ProofsSafe C20.ProofsEndpoint C20.ProofsLex C20.ProofsDoc C20.ProofsStatic.
+From NGF Require Export C20.Model C20.Spec C20.ProofsSafe C20.ProofsEndpoint C20.ProofsLex C20.ProofsDoc C20.ProofsV6 C20.ProofsStatic.
 Import ListNotations.
 
 (* ------------------------------------------------------------------ documented => accepted, in the readable form *)
@@ -21,6 +21,37 @@ Lemma documented_endpoint_accepted : forall h n,
 Proof.
   intros h n Hh Hn. assert (H := doc_plain_intro h n Hh Hn).
   split; [exact (doc_endpoint_plain_accepted _ H)|exact (doc_endpoint_plain_accepted_opt _ H)].
+Qed.
+
+Lemma doc_v6_intro : forall h n, ipv6_ok h = true -> (1 <= n <= 65535)%N ->
+  doc_endpoint_v6 (c_lbr :: h ++ c_rbr :: c_colon :: dec n) = true.
+Proof.
+  intros h n Hh Hn. assert (Hp := dec_port_ok n Hn). destruct (port_ok_plain _ Hp) as (P1 & _).
+  unfold doc_endpoint_v6.
+  assert (E0 : c_lbr :: h ++ c_rbr :: c_colon :: dec n = (c_lbr :: h ++ [c_rbr]) ++ c_colon :: dec n).
+  { simpl. rewrite <- app_assoc. reflexivity. }
+  rewrite E0, (split_last_app _ _ _ P1), Hp. cbn [andb]. change (Ascii.eqb c_lbr c_lbr) with true. cbn [andb].
+  assert (E1 : is_nil (h ++ [c_rbr]) = false) by (destruct h; reflexivity). rewrite E1. cbn [negb andb].
+  rewrite last_app_one. change (Ascii.eqb c_rbr c_rbr) with true. cbn [andb].
+  rewrite List.removelast_last. exact Hh.
+Qed.
+
+Lemma documented_v6_endpoint_accepted : forall h n, ipv6_ok h = true -> (1 <= n <= 65535)%N ->
+  validate_endpoint repaired (c_lbr :: h ++ c_rbr :: c_colon :: dec n) = true /  validate_endpoint_optional_port repaired (c_lbr :: h ++ c_rbr :: c_colon :: dec n) = true.
+Proof. intros h n Hh Hn. exact (doc_endpoint_v6_accepted _ (doc_v6_intro h n Hh Hn)). Qed.
+
+Lemma doc_endpoint_accepted : forall s, doc_endpoint s = true ->
+  validate_endpoint repaired s = true /\ validate_endpoint_optional_port repaired s = true.
+Proof.
+  intros s H. unfold doc_endpoint in H. apply orb_true_iff in H. destruct H as [H|H].
+  - split; [exact (doc_endpoint_plain_accepted _ H)|exact (doc_endpoint_plain_accepted_opt _ H)].
+  - exact (doc_endpoint_v6_accepted _ H).
+Qed.
+
+Lemma ip_ok_validate : forall s, ip_ok s = true -> validate_ip s = true.
+Proof.
+  intros s H. unfold ip_ok in H. apply orb_true_iff in H. destruct H as [H|H];
+    [exact (ipv4_ok_validate _ H)|exact (ipv6_ok_validate _ H)].
 Qed.
 
 Lemma resource_name_exact : forall s, validate_resource_name s = subdomain_ok s.
@@ -76,7 +107,7 @@ Example ex_documented_hosts :
   validate_endpoint repaired (lit "10.0.255.1:65536") = false.
 Proof. vm_compute. repeat split; reflexivity. Qed.
 
-(* IPv6 hosts: not covered by the general acceptance theorem; the documented forms, by evaluation *)
+(* IPv6 text forms: what the grammar admits and refuses, and the model of net.ParseIP with it *)
 Example ex_ipv6 :
   forallb (fun s => ipv6_ok (lit s) && validate_ip (lit s))
     ["::"; "::1"; "1::"; "2001:db8::1"; "2001:DB8:0:0:8:800:200C:417A"; "fe80::1:2:3:4:5:6";
@@ -110,7 +141,7 @@ Proof. vm_compute. repeat split; try reflexivity. discriminate. Qed.
 Definition ex_args (m h : option str) : static_args :=
   {| a_ctlr := Some (lit "gateway.nginx.org/nginx-gateway-controller"); a_class := Some (lit "nginx");
      a_gateway := Some (lit "nginx-gateway/gw"); a_config := Some (lit "ngf-config"); a_service := Some (lit "ngf");
-     a_metrics_port := m; a_health_port := h; a_lock := None; a_plus := true; a_secret := None;
+     a_metrics_port := m; a_health_port := h; a_metrics_disable := false; a_health_disable := false; a_lock := None; a_plus := true; a_secret := None;
      a_endpoint := Some (lit "nim.example.com:443"); a_resolver := Some (lit "10.0.0.10:53");
      a_client_secret := None; a_ca_secret := Some (lit "nim-ca"); a_telemetry_endpoint := lit "oss.edge.df.f5.com:443" |}.
 
